@@ -32,17 +32,34 @@ Section Total.
   Lemma need_elem : forall l x f, In x l -> need_list l < f -> need x < f.
   Proof. intros l x f Hin H. pose proof (need_list_in l x Hin). lia. Qed.
 
+  Lemma scalar_total_q : forall k f v addr q, scalar_kind k = true -> has_type (TPrim k) v ->
+    exists res, std_enc e Qraw (S f) (TPrim k) v addr q = SOk res.
+  Proof.
+    intros k f v addr q Hk Hv.
+    inversion Hv as [b|k' z Hr|k' bits txt Hk' Hf|s| | | | | |]; subst.
+    - destruct addr, q; cbn; eexists; reflexivity.
+    - unfold int_range_ok in Hr. destruct k; cbn in Hr; try contradiction; destruct addr, q; cbn; eexists; reflexivity.
+    - destruct (Ffin _ _ _ Hf) as [x ->]. destruct Hk' as [-> | ->]; destruct addr, q; cbn; eexists; reflexivity.
+    - destruct addr, q; cbn; eexists; reflexivity.
+  Qed.
+
   Lemma enc_fields_total : forall sz ph fsall vs f addr, layout_ok e 0 ph sz -> length vs = length ph ->
     (forall k o t x, nth_error ph k = Some (o, t) -> nth_error vs k = Some x -> exists a, std_enc e Qraw f t x addr false = SOk a) ->
+    (forall k o t x, nth_error ph k = Some (o, t) -> nth_error vs k = Some x -> quotable t = true ->
+       exists a, std_enc e Qraw f t x addr true = SOk a) ->
     forall fs, Forall (field_ok ph) fs -> forall first, exists items, enc_fields e f (TStruct sz ph fsall) (VStruct vs) addr fs first = SOk items.
   Proof.
-    intros sz ph fsall vs f addr Hlay Hlen Hall fs Hfs. induction Hfs as [|fd r (o & Hp & Ho & Hin) Hr IH]; intro first.
+    intros sz ph fsall vs f addr Hlay Hlen Hall Hallq fs Hfs. induction Hfs as [|fd r (o & Hp & Ho & Hin) Hr IH]; intro first.
     - exists []. reflexivity.
-    - destruct (In_nth_error _ _ Hin) as [k Hk].
+    - destruct (opts_ok_bits fd Ho) as (Hoz & Hoe & Hsq).
+      destruct (In_nth_error _ _ Hin) as [k Hk].
       assert (Hkl : k < length vs) by (rewrite Hlen; apply nth_error_Some; congruence).
       destruct (nth_error vs k) as [x|] eqn:Hx; [|apply nth_error_None in Hx; lia].
-      rewrite (enc_fields_cons e sz ph fsall Hlay f vs addr fd r first o k x Hp Ho Hk Hx).
-      destruct (Hall _ _ _ _ Hk Hx) as [a Ha]. destruct (IH false) as [rest Hrest]. rewrite Ha, Hrest. cbn [sbind]. eexists; reflexivity.
+      rewrite (enc_fields_cons e sz ph fsall Hlay f vs addr fd r first o k x Hp Hoz Hk Hx).
+      destruct (F_omitempty fd && is_empty_value e (f_type fd) x); [apply IH|].
+      assert (Ha : exists a, std_enc e Qraw f (f_type fd) x addr (F_stringize fd) = SOk a).
+      { destruct (F_stringize fd) eqn:Es; [|eapply Hall; eassumption]. destruct (Hsq eq_refl) as [Hqt _]. eapply Hallq; eassumption. }
+      destruct Ha as [a Ha]. destruct (IH false) as [rest Hrest]. rewrite Ha, Hrest. cbn [sbind]. eexists; reflexivity.
   Qed.
 
   Theorem std_total : forall t, frag e t -> forall v fuel addr, has_type t v -> need v < fuel ->
@@ -88,7 +105,10 @@ Section Total.
       inversion Hv as [ | | | | | | | | |sz0 ph0 fs0 vs Hlen Hty]; subst.
       change (need (VStruct vs)) with (S (need_list vs)) in Hn.
       rewrite std_enc_struct.
-      destruct (enc_fields_total s ph fs vs f addr Hlay Hlen) with (fs := fs) (first := true) as [items Hi]; [|exact Hfs|].
+      destruct (enc_fields_total s ph fs vs f addr Hlay Hlen) with (fs := fs) (first := true) as [items Hi]; [| |exact Hfs|].
+      2: { intros k o t x Hk Hx Hqt. destruct t as [kq| | | | | | |]; try discriminate Hqt.
+           destruct f as [|f']; [pose proof (need_list_in vs x (nth_error_In _ _ Hx)); lia|].
+           apply scalar_total_q; [exact Hqt|eapply Hty; eassumption]. }
       { intros k o t x Hk Hx. rewrite Forall_forall in H. specialize (H (o, t) (nth_error_In _ _ Hk)). cbn in H.
         apply H; [eapply frag_all_in; [exact Hall|eapply nth_error_In; exact Hk]|eapply Hty; eassumption|].
         eapply need_elem; [eapply nth_error_In; exact Hx|lia]. }
